@@ -62,23 +62,23 @@ theorem provLe_single (a0 : Nat) {f : Bool} {t : Raw} {g : GridTag} {a : Nat} (h
   · exact Or.inr h1
 
 /-- generic path of `Image.__torch_function__` / `FlowField.__torch_function__` for one tensor argument -/
-theorem alignedV_imageTF_single (a0 : Nat) (op : TOp) (f : Bool) (t : Raw) (g : GridTag) (a : Nat)
+theorem alignedV_imageTF_single_in (a0 : Nat) (op : TOp) (f : Bool) (t : Raw) (g : GridTag) (a : Nat)
     (other : Option SVal)
     (hargs : callArgs op (.image f t g a) other = some [.image f t g a])
     (hal : AlignedS a0 (.image f t g a))
-    (hle : ProvLeRes (torchSem op t (other.map SVal.raw)) t) :
+    (hle : ProvInRes g.src (torchSem op t (other.map SVal.raw))) :
     AlignedV a0 (imageTorchFunction op (.image f t g a) other) := by
-  have hone : ∀ d : Raw, ProvLe d t →
+  have hone : ∀ d : Raw, ProvIn g.src d.prov →
       AlignedV a0 (if f = true then fiResult d (some g) (some a) else imResult d (some g)) := by
     intro d hd
     cases f with
-    | false => simpa using alignedV_imResult a0 d g (provLe_single a0 hal hd)
-    | true => simpa using alignedV_fiResult a0 d g a (provLe_single a0 hal hd) (hal.2.2 rfl)
+    | false => simpa using alignedV_imResult a0 d g hd
+    | true => simpa using alignedV_fiResult a0 d g a hd (hal.2.2 rfl)
   unfold imageTorchFunction
   cases hsem : torchSem op (SVal.image f t g a).raw (other.map SVal.raw) with
   | err => simp [AlignedV]
   | t d =>
-    have hd : ProvLe d t := by
+    have hd : ProvIn g.src d.prov := by
       have hsem' : torchSem op t (other.map SVal.raw) = .t d := hsem
       rw [hsem'] at hle
       exact hle
@@ -92,7 +92,7 @@ theorem alignedV_imageTF_single (a0 : Nat) (op : TOp) (f : Bool) (t : Raw) (g : 
         List.filterMap_nil, List.head?_cons, Bool.false_eq_true, if_false, if_true, torchFunctionAxes, axes?, SVal.isBatch, imageGrid?]
       simpa using hone d hd
   | ts ds =>
-    have hd : ∀ d ∈ ds, ProvLe d t := by
+    have hd : ∀ d ∈ ds, ProvIn g.src d.prov := by
       have hsem' : torchSem op t (other.map SVal.raw) = .ts ds := hsem
       rw [hsem'] at hle
       exact hle
@@ -117,5 +117,14 @@ theorem alignedV_imageTF_single (a0 : Nat) (op : TOp) (f : Bool) (t : Raw) (g : 
         obtain ⟨d, hdm, rfl⟩ := hv
         simpa using hone d (hd d hdm)
       · exact alignedV_many_plain a0 ds
+
+/-- same, from the weaker "entries come from entries of the argument" fact -/
+theorem alignedV_imageTF_single (a0 : Nat) (op : TOp) (f : Bool) (t : Raw) (g : GridTag) (a : Nat)
+    (other : Option SVal)
+    (hargs : callArgs op (.image f t g a) other = some [.image f t g a])
+    (hal : AlignedS a0 (.image f t g a))
+    (hle : ProvLeRes (torchSem op t (other.map SVal.raw)) t) :
+    AlignedV a0 (imageTorchFunction op (.image f t g a) other) :=
+  alignedV_imageTF_single_in a0 op f t g a other hargs hal (provInRes_of_provLeRes hal.2.1 hle)
 
 end Deepali.Dispatch
